@@ -228,6 +228,59 @@ pub fn explore_doc(ctx: &Ctx, info: &LangInfo, doc: &[u8], cfg: &HistCfg, res: &
     }
 }
 
+/// Batched edits: every ordered pair (thorough: also triples on short documents) of edits applied to the old tree with
+/// `Tree::edit` BEFORE one re-parse ("after any sequence of text edits, each mirrored on the old tree"). The second edit
+/// meets a tree whose positions and change marks were already rewritten by the first, and whose cached summaries
+/// (look-ahead, column dependence, ...) still describe the unedited nodes.
+pub fn explore_batched(ctx: &Ctx, info: &LangInfo, doc: &[u8], atoms: &[Vec<u8>], batch: usize, oracle: Oracle, res: &mut ShardResult, scratch: &mut ScratchCache) {
+    let lang = &info.language;
+    let mut parser = Parser::new();
+    parser.set_language(lang).unwrap();
+    let Some(t0) = parser.parse(doc, None) else { return };
+    fn rec(ctx: &Ctx, info: &LangInfo, parser: &mut Parser, doc: &[u8], atoms: &[Vec<u8>], left: usize, text: &[u8], old: &Tree, path: &mut Vec<Edit>, oracle: Oracle, res: &mut ShardResult, scratch: &mut ScratchCache) {
+        let lang = &info.language;
+        for e in edit_alphabet(text, atoms) {
+            if res.too_many() { return; }
+            let (new_text, ie) = text::apply(text, &e);
+            let mut edited = old.clone();
+            edited.edit(&ie);
+            path.push(e);
+            if left > 1 {
+                rec(ctx, info, parser, doc, atoms, left - 1, &new_text, &edited, path, oracle, res, scratch);
+            } else {
+                let mut cj = case_json(&info.name, doc, path, 0);
+                cj["batched"] = json!(true);
+                crate::case!("{}", cj);
+                res.transitions += 1;
+                match parser.parse(&new_text, Some(&edited)) {
+                    None => res.violation("parse-none", "incremental parse returned None".into(), cj),
+                    Some(inc) => match oracle {
+                        Oracle::C04 => {
+                            let tr = Transition { info, new_text: &new_text, old_edited: &edited, inc: &inc };
+                            if let Some((fp, msg)) = check_c04(&tr) { res.violation(&format!("batched:{}", fp), msg, cj); }
+                            if edited.changed_ranges(&inc).count() > 0 { res.nontrivial += 1; }
+                        }
+                        _ => {
+                            let inc_x = XTree::build(&inc);
+                            let (scr_x, scr_bad) = scratch.get(lang, &new_text);
+                            if !*scr_bad {
+                                if let Some(diff) = inc_x.diff_visible(scr_x) { res.violation("batched:incremental-differs-from-scratch", format!("{} | inc={} scratch={}", diff, inc_x.sexp(lang), scr_x.sexp(lang)), cj); }
+                            } else if !inc_x.root_has_error() {
+                                res.violation("batched:incremental-hides-error", format!("inc={} scratch={}", inc_x.sexp(lang), scr_x.sexp(lang)), cj);
+                            }
+                            if reuse_happened(&edited, &inc) { res.nontrivial += 1; }
+                            res.outcome(crate::util::fnv_mix(inc_x.nodes.len() as u64, *scr_bad as u64));
+                        }
+                    },
+                }
+            }
+            path.pop();
+        }
+    }
+    res.states += 1;
+    rec(ctx, info, &mut parser, doc, atoms, batch, doc, &t0, &mut vec![], oracle, res, scratch);
+}
+
 fn reuse_happened(old: &Tree, new: &Tree) -> bool {
     // any non-root node identity shared between the two trees
     let mut ids = HashSet::new();
@@ -247,11 +300,14 @@ pub fn replay(info: &LangInfo, case: &Value, oracle: Oracle) -> Vec<String> {
     let mut text = doc.clone();
     let mut tree = parser.parse(&text, None).unwrap();
     let mut msgs = vec![];
+    let batched = case["batched"].as_bool().unwrap_or(false);
     for (k, e) in edits.iter().enumerate() {
         let (new_text, ie) = text::apply(&text, e);
         let mut old = tree.clone();
         old.edit(&ie);
         let last = k + 1 == edits.len();
+        // batched edits: all of them are applied to the old tree before the one re-parse
+        if batched && !last { text = new_text; tree = old; continue; }
         if last && std::env::var("VF_PARSE_LOG").is_ok() { parser.set_logger(Some(Box::new(|t, m: &str| { if t == tree_sitter::LogType::Parse { println!("  log: {}", m); } }))); }
         let inc = chunked_parse(&mut parser, &new_text, Some(&old), if last { chunk } else { 0 }).unwrap();
         parser.set_logger(None);
